@@ -521,3 +521,7 @@ mod input_queue_tests {
         }
     }
 }
+
+#[cfg(ggrs_verif)]
+#[path = "verif/iq.rs"]
+mod verif_iq;
